@@ -2,6 +2,8 @@
 From RRE Require Model.StreamAlpha Proofs.StreamAlphaProofs.
 From RRE Require Import Base.Sx Base.Float Model.Window Proofs.WindowProofs Proofs.WindowPlacementProofs.
 Open Scope N_scope.
+From RRE Require Import Proofs.WindowManagerProofs.
+From Coq Require Import Sorting.Sorted Lia.
 From RRE Require Import Properties.C12.
 Check (C12_record_no_old : forall dur cap w e x,
   In x (w_events (record dur cap w e)) -> ets e - dur <= ets x).
@@ -37,3 +39,13 @@ Check (C12_alpha_nothing_before_the_window : forall kind d maxn now nd id ts s t
 Check (C12_alpha_buffer_only_shrinks : forall kind d maxn now nd id ts s t nd' b,
   StreamAlpha.process kind d maxn now nd id ts s t = (nd', b) ->
   forall e, In e (StreamAlpha.n_events nd') -> In e (StreamAlpha.n_events nd) \/ (b = true /\ e = (id, ts))).
+Check (C12_manager_places_every_event_once : forall dur cap maxw, 0 < dur -> 1 <= cap -> 1 <= maxw ->
+  forall es e,
+  let ws := fold_left (process_event dur cap maxw) es [] in
+  let ws' := process_event dur cap maxw ws e in
+  (forall w, In w ws' -> (w_end w = w_start w + dur /\ w_start w mod dur = 0) /\
+                         forall x, In x (w_events w) -> w_start w <= ets x /\ ets x < w_end w) /\
+  StronglySorted (fun a b => w_start a < w_start b) ws' /\
+  (length ws' <= N.to_nat maxw)%nat /\
+  (exists w, In w ws' /\ In e (w_events w) /\ w_start w = (ets e / dur) * dur /\ w_end w = (ets e / dur) * dur + dur) /\
+  (forall w1 w2, In w1 ws' -> In w2 ws' -> In e (w_events w1) -> In e (w_events w2) -> w1 = w2)).
